@@ -254,9 +254,15 @@ class Exec:
         if k == "query":
             self.op(s.op, {}, self.pc)
         elif k in ("debug", "timer", "parallel"):
-            self.stmts(s.body)
+            pre = None
             if k == "timer" and s.rel is not None:
-                self.logsizes.append({"rel": s.rel, "msg": s.msg, "size": self.rel(s.rel).size(), "pc": self.pc, "kind": "timer", "iter": self.cur_iter})
+                pre = self.rel(s.rel).size()
+                it0, pc0 = self.cur_iter, self.pc
+            self.stmts(s.body)
+            if pre is not None:
+                # profile Logger semantics: the event carries size_at_end - size_at_start of the timed statement
+                post = self.rel(s.rel).size()
+                self.logsizes.append({"rel": s.rel, "msg": s.msg, "size": sym.arith("-", post, pre, "u"), "pc": pc0, "kind": "timer", "iter": it0})
         elif k == "loop":
             self.loop(s)
         elif k == "exit":
